@@ -19,6 +19,7 @@ func (vc *VC) execBuiltin(x *ssa.Call, b *ssa.Builtin, pc string, st *State) {
 		case *types.Basic:
 			vc.setVal(x, sx("slen", vc.val(a)))
 		case *types.Map:
+			vc.guardedUse(a, pc, st, x.Pos(), "len")
 			vc.setVal(x, vc.mapLen(st, a))
 		default:
 			panic(unsupported("len of " + a.Type().String()))
@@ -179,7 +180,9 @@ func (vc *VC) mapHeap(t types.Type) string {
 
 func (vc *VC) mapLen(st *State, m ssa.Value) string {
 	h := vc.mapHeap(m.Type())
-	return sx("select", vc.heapGet(st, h+"_size"), vc.val(m))
+	t := sx("select", vc.heapGet(st, h+"_size"), vc.val(m))
+	vc.assume("true", and(sx("<=", "0", t), sx("<=", t, MAXLEN))) // sizes are lengths (N: < 2^40)
+	return t
 }
 
 func (vc *VC) execMakeMap(x *ssa.MakeMap, pc string, st *State) {
@@ -193,6 +196,7 @@ func (vc *VC) execMakeMap(x *ssa.MakeMap, pc string, st *State) {
 
 func (vc *VC) execMapUpdate(x *ssa.MapUpdate, pc string, st *State) {
 	m := vc.val(x.Map)
+	vc.guardedUse(x.Map, pc, st, x.Pos(), "map update")
 	vc.oblige("nil", "map update", pc, not(eq(m, nilLoc)), nil, x.Pos(), "assignment to entry in nil map")
 	h := vc.mapHeap(x.Map.Type())
 	k, v := vc.val(x.Key), vc.val(x.Value)
@@ -215,6 +219,7 @@ func (vc *VC) execLookup(x *ssa.Lookup, pc string, st *State) {
 		return
 	}
 	m := vc.val(x.X)
+	vc.guardedUse(x.X, pc, st, x.Pos(), "map lookup")
 	h := vc.mapHeap(x.X.Type())
 	k := vc.val(x.Index)
 	// reading a nil map is legal and yields the zero value
@@ -242,6 +247,7 @@ func (vc *VC) execRange(x *ssa.Range, pc string, st *State) {
 		panic(unsupported("range over " + x.X.Type().String()))
 	}
 	ks, _ := vc.mapSorts(x.X.Type())
+	vc.guardedUse(x.X, pc, st, x.Pos(), "range")
 	vc.ensureIterGhosts(ks)
 	st.ghost["it_visited"] = vc.define("G_it_visited", fmt.Sprintf("(Array %s Bool)", ks), fmt.Sprintf("((as const (Array %s Bool)) false)", ks))
 	st.ghost["it_count"] = "0"
@@ -270,6 +276,7 @@ func (vc *VC) execNext(x *ssa.Next, pc string, st *State) {
 		panic(unsupported("Next on unknown iterator"))
 	}
 	m := vc.val(mr.m)
+	vc.guardedUse(mr.m, pc, st, x.Pos(), "range step")
 	h := vc.mapHeap(mr.m.Type())
 	ks, vs := vc.mapSorts(mr.m.Type())
 	dom := sx("select", vc.heapGet(st, h+"_dom"), m)
@@ -284,6 +291,8 @@ func (vc *VC) execNext(x *ssa.Next, pc string, st *State) {
 	// ok <=> some key remains; assumed: count == number of visited keys, so ok <=> count < size
 	vc.assume(pc, eq(okn, sx("<", count, size)))
 	vc.assume(pc, implies(okn, and(sx("select", dom, kn), not(sx("select", visited, kn)))))
+	// when the iteration ends every key has been visited (cardinality argument, assumed with the range semantics)
+	vc.assume(pc, implies(not(okn), fmt.Sprintf("(forall ((k!r %s)) (! (=> (select %s k!r) (select %s k!r)) :pattern ((select %s k!r))))", ks, dom, visited, dom)))
 	vn := vc.define("next_v", vs, sx("select", val, kn))
 	st.ghost["it_visited"] = vc.define("G_it_visited", fmt.Sprintf("(Array %s Bool)", ks), ite(okn, sx("store", visited, kn, "true"), visited))
 	st.ghost["it_count"] = vc.define("G_it_count", "Int", ite(okn, sx("+", count, "1"), count))
